@@ -415,6 +415,381 @@ example :
     let r := run n [.act [.wsend 0 0 7 [.wsend 0 1 4 []]], .tick, .act [.wsend 0 2 1 []]]
     r.2.map (fun x => (x.verdict, x.rcv, x.load)) = [(.full, [], 7), (.carried, [1], 7), (.disabled, [], 0)] := by decide
 
+/-! ### Exact accounting: the load *is* the data carried -/
+
+mutual
+/-- No interface of a wired link is disabled anywhere in the event (enabling is allowed). -/
+def Ev.noDisable : Ev → Bool
+  | .send _ _ _ _ nested => noDisables nested
+  | .wsend _ _ _ nested => noDisables nested
+  | .setEn _ _ v => v
+  | .wsetEn _ _ _ => true
+def noDisables : List Ev → Bool
+  | [] => true
+  | e :: es => e.noDisable && noDisables es
+end
+
+/-- Size of the frame if this record says it was carried over wired link (`w = false`) / wireless channel (`w = true`) `k`. -/
+def Rec.carriedBy (r : Rec) (w : Bool) (k : Nat) : Nat :=
+  if r.wireless = w ∧ r.k = k ∧ r.verdict = .carried then r.size else 0
+
+/-- Data carried over link / channel `k` according to a trace. -/
+def carriedOn (w : Bool) (k : Nat) : List Rec → Nat
+  | [] => 0
+  | r :: rs => r.carriedBy w k + carriedOn w k rs
+
+theorem carriedOn_append (w : Bool) (k : Nat) (a b : List Rec) :
+    carriedOn w k (a ++ b) = carriedOn w k a + carriedOn w k b := by
+  induction a with
+  | nil => simp [carriedOn]
+  | cons r rs ih => simp [carriedOn, ih, Nat.add_assoc]
+
+theorem loadOf_set (n : Net) (k k' : Nat) (l l' : Link) (hk : n.links[k]? = some l) :
+    loadOf { n with links := n.links.set k l' } k' = if k' = k then l'.load else loadOf n k' := by
+  unfold loadOf
+  have hlt : k < n.links.length := (List.getElem?_eq_some_iff.mp hk).1
+  by_cases h : k' = k
+  · subst h; simp [hlt]
+  · have h' : k ≠ k' := fun e => h e.symm
+    simp [List.getElem?_set_ne h', h]
+
+theorem cloadOf_set (n : Net) (c c' : Nat) (ch ch' : Chan) (hc : n.chans[c]? = some ch) :
+    cloadOf { n with chans := n.chans.set c ch' } c' = if c' = c then ch'.load else cloadOf n c' := by
+  unfold cloadOf
+  have hlt : c < n.chans.length := (List.getElem?_eq_some_iff.mp hc).1
+  by_cases h : c' = c
+  · subst h; simp [hlt]
+  · have h' : c ≠ c' := fun e => h e.symm
+    simp [List.getElem?_set_ne h', h]
+
+theorem loadOf_eq (n : Net) (k : Nat) (l : Link) (hk : n.links[k]? = some l) : loadOf n k = l.load := by
+  simp [loadOf, hk]
+
+theorem cloadOf_eq (n : Net) (c : Nat) (ch : Chan) (hc : n.chans[c]? = some ch) : cloadOf n c = ch.load := by
+  simp [cloadOf, hc]
+
+mutual
+theorem runEv_accounts (n : Net) (e : Ev) (hnd : e.noDisable = true) (k : Nat) :
+    loadOf (runEv n e).1 k = loadOf n k + carriedOn false k (runEv n e).2 := by
+  cases e with
+  | send k0 fromA s acc nested =>
+    unfold runEv
+    cases hk : n.links[k0]? with
+    | none => simp [carriedOn, Rec.carriedBy]
+    | some l =>
+      simp only
+      by_cases h1 : (if fromA then l.enA else l.enB) = true
+      · by_cases h2 : l.isUp = true
+        · by_cases h3 : admits l.load s l.bw = true
+          · simp only [h1, h2, h3, Bool.not_true, Bool.false_eq_true, if_false]
+            cases acc with
+            | true =>
+              simp only [if_true]
+              have hnd' : noDisables nested = true := by simpa [Ev.noDisable] using hnd
+              have ih := runEvs_accounts { n with links := n.links.set k0 { l with load := l.load + s } } nested hnd' k
+              rw [ih, carriedOn_append, loadOf_set n k0 k l _ hk]
+              by_cases hkk : k = k0
+              · subst hkk
+                simp [carriedOn, Rec.carriedBy, loadOf_eq n k l hk]; omega
+              · have : ¬ k0 = k := fun e => hkk e.symm
+                simp [carriedOn, Rec.carriedBy, hkk, this]
+            | false =>
+              simp only [Bool.false_eq_true, if_false]
+              rw [loadOf_set n k0 k l _ hk]
+              by_cases hkk : k = k0
+              · subst hkk
+                simp [carriedOn, Rec.carriedBy, loadOf_eq n k l hk]
+              · simp [carriedOn, Rec.carriedBy, hkk]
+          · simp [h1, h2, h3, carriedOn, Rec.carriedBy]
+        · simp [h1, h2, carriedOn, Rec.carriedBy]
+      · simp [h1, carriedOn, Rec.carriedBy]
+  | wsend c i s nested =>
+    unfold runEv
+    have hnd' : noDisables nested = true := by simpa [Ev.noDisable] using hnd
+    cases hc : n.chans[c]? with
+    | none => simp [carriedOn, Rec.carriedBy]
+    | some ch =>
+      simp only
+      cases hi : ch.en[i]? with
+      | none => simp [carriedOn, Rec.carriedBy]
+      | some enS =>
+        cases enS with
+        | false => simp [carriedOn, Rec.carriedBy]
+        | true =>
+          by_cases h3 : admits ch.load s ch.cap = true
+          · simp only [h3, Bool.not_true, Bool.false_eq_true, if_false]
+            have ih := runEvs_accounts { n with chans := n.chans.set c { ch with load := ch.load + s } } nested hnd' k
+            rw [ih, carriedOn_append]
+            simp [carriedOn, Rec.carriedBy, loadOf]
+          · simp [h3, carriedOn, Rec.carriedBy]
+  | setEn k0 endA v =>
+    unfold runEv
+    have hv : v = true := by simpa [Ev.noDisable] using hnd
+    subst hv
+    cases hk : n.links[k0]? with
+    | none => simp [carriedOn]
+    | some l =>
+      simp only
+      by_cases hcur : ((if endA then l.enA else l.enB) == true) = true
+      · simp [hcur, carriedOn]
+      · simp only [hcur, Bool.false_eq_true, if_false, if_true]
+        rw [loadOf_set n k0 k l _ hk]
+        by_cases hkk : k = k0
+        · subst hkk
+          cases endA <;> simp [carriedOn, loadOf_eq n k l hk]
+        · simp [carriedOn, hkk]
+  | wsetEn c i v =>
+    unfold runEv
+    cases hc : n.chans[c]? with
+    | none => simp [carriedOn]
+    | some ch => simp [carriedOn, loadOf]
+
+theorem runEvs_accounts (n : Net) (es : List Ev) (hnd : noDisables es = true) (k : Nat) :
+    loadOf (runEvs n es).1 k = loadOf n k + carriedOn false k (runEvs n es).2 := by
+  cases es with
+  | nil => simp [runEvs, carriedOn]
+  | cons e es =>
+    unfold runEvs
+    have h12 : e.noDisable = true ∧ noDisables es = true := by simpa [noDisables] using hnd
+    have h1 := runEv_accounts n e h12.1 k
+    have h2 := runEvs_accounts (runEv n e).1 es h12.2 k
+    simp only
+    rw [h2, h1, carriedOn_append]
+    omega
+end
+
+
+theorem bwOf_set (n : Net) (k k' : Nat) (l l' : Link) (hk : n.links[k]? = some l) (hbw : l'.bw = l.bw) :
+    bwOf { n with links := n.links.set k l' } k' = bwOf n k' := by
+  unfold bwOf
+  obtain ⟨hlt, hget⟩ := List.getElem?_eq_some_iff.mp hk
+  by_cases h : k' = k
+  · subst h; simp [hlt, hbw, hget]
+  · have h' : k ≠ k' := fun e => h e.symm
+    simp [List.getElem?_set_ne h']
+
+theorem capOf_set (n : Net) (c c' : Nat) (ch ch' : Chan) (hc : n.chans[c]? = some ch) (hcap : ch'.cap = ch.cap) :
+    capOf { n with chans := n.chans.set c ch' } c' = capOf n c' := by
+  unfold capOf
+  obtain ⟨hlt, hget⟩ := List.getElem?_eq_some_iff.mp hc
+  by_cases h : c' = c
+  · subst h; simp [hlt, hcap, hget]
+  · have h' : c ≠ c' := fun e => h e.symm
+    simp [List.getElem?_set_ne h']
+
+mutual
+/-- Nothing that can happen changes a bandwidth or a capacity. -/
+theorem runEv_bw (n : Net) (e : Ev) (k : Nat) :
+    bwOf (runEv n e).1 k = bwOf n k ∧ capOf (runEv n e).1 k = capOf n k := by
+  cases e with
+  | send k0 fromA s acc nested =>
+    unfold runEv
+    cases hk : n.links[k0]? with
+    | none => exact ⟨rfl, rfl⟩
+    | some l =>
+      simp only
+      by_cases h1 : (if fromA then l.enA else l.enB) = true
+      · by_cases h2 : l.isUp = true
+        · by_cases h3 : admits l.load s l.bw = true
+          · simp only [h1, h2, h3, Bool.not_true, Bool.false_eq_true, if_false]
+            cases acc with
+            | true =>
+              simp only [if_true]
+              have ih := runEvs_bw { n with links := n.links.set k0 { l with load := l.load + s } } nested k
+              rw [ih.1, ih.2, bwOf_set n k0 k l { l with load := l.load + s } hk rfl]
+              exact ⟨rfl, rfl⟩
+            | false =>
+              simp only [Bool.false_eq_true, if_false]
+              rw [bwOf_set n k0 k l { l with load := l.load + s - s } hk rfl]
+              exact ⟨rfl, rfl⟩
+          · simp [h1, h2, h3]
+        · simp [h1, h2]
+      · simp [h1]
+  | wsend c i s nested =>
+    unfold runEv
+    cases hc : n.chans[c]? with
+    | none => exact ⟨rfl, rfl⟩
+    | some ch =>
+      simp only
+      cases hi : ch.en[i]? with
+      | none => exact ⟨rfl, rfl⟩
+      | some enS =>
+        cases enS with
+        | false => simp
+        | true =>
+          by_cases h3 : admits ch.load s ch.cap = true
+          · simp only [h3, Bool.not_true, Bool.false_eq_true, if_false]
+            have ih := runEvs_bw { n with chans := n.chans.set c { ch with load := ch.load + s } } nested k
+            rw [ih.1, ih.2, capOf_set n c k ch { ch with load := ch.load + s } hc rfl]
+            exact ⟨rfl, rfl⟩
+          · simp [h3]
+  | setEn k0 endA v =>
+    unfold runEv
+    cases hk : n.links[k0]? with
+    | none => exact ⟨rfl, rfl⟩
+    | some l =>
+      simp only
+      by_cases hcur : ((if endA then l.enA else l.enB) == v) = true
+      · simp [hcur]
+      · simp only [hcur, Bool.false_eq_true, if_false]
+        refine ⟨?_, rfl⟩
+        cases endA <;> cases v <;> exact bwOf_set n k0 k l _ hk rfl
+  | wsetEn c i v =>
+    unfold runEv
+    cases hc : n.chans[c]? with
+    | none => exact ⟨rfl, rfl⟩
+    | some ch => exact ⟨rfl, capOf_set n c k ch { ch with en := ch.en.set i v } hc rfl⟩
+
+theorem runEvs_bw (n : Net) (es : List Ev) (k : Nat) :
+    bwOf (runEvs n es).1 k = bwOf n k ∧ capOf (runEvs n es).1 k = capOf n k := by
+  cases es with
+  | nil => exact ⟨rfl, rfl⟩
+  | cons e es =>
+    unfold runEvs
+    have h1 := runEv_bw n e k
+    have h2 := runEvs_bw (runEv n e).1 es k
+    simp only
+    exact ⟨h2.1.trans h1.1, h2.2.trans h1.2⟩
+end
+
+mutual
+/-- Wireless: the load of a channel is exactly the data sent on it — unconditionally (disabling a wireless interface does
+not clear the channel's load). -/
+theorem runEv_air_accounts (n : Net) (e : Ev) (c : Nat) :
+    cloadOf (runEv n e).1 c = cloadOf n c + carriedOn true c (runEv n e).2 := by
+  cases e with
+  | send k0 fromA s acc nested =>
+    unfold runEv
+    cases hk : n.links[k0]? with
+    | none => simp [carriedOn, Rec.carriedBy]
+    | some l =>
+      simp only
+      by_cases h1 : (if fromA then l.enA else l.enB) = true
+      · by_cases h2 : l.isUp = true
+        · by_cases h3 : admits l.load s l.bw = true
+          · simp only [h1, h2, h3, Bool.not_true, Bool.false_eq_true, if_false]
+            cases acc with
+            | true =>
+              simp only [if_true]
+              have ih := runEvs_air_accounts { n with links := n.links.set k0 { l with load := l.load + s } } nested c
+              rw [ih, carriedOn_append]
+              simp [carriedOn, Rec.carriedBy, cloadOf]
+            | false => simp [carriedOn, Rec.carriedBy, cloadOf]
+          · simp [h1, h2, h3, carriedOn, Rec.carriedBy]
+        · simp [h1, h2, carriedOn, Rec.carriedBy]
+      · simp [h1, carriedOn, Rec.carriedBy]
+  | wsend c0 i s nested =>
+    unfold runEv
+    cases hc : n.chans[c0]? with
+    | none => simp [carriedOn, Rec.carriedBy]
+    | some ch =>
+      simp only
+      cases hi : ch.en[i]? with
+      | none => simp [carriedOn, Rec.carriedBy]
+      | some enS =>
+        cases enS with
+        | false => simp [carriedOn, Rec.carriedBy]
+        | true =>
+          by_cases h3 : admits ch.load s ch.cap = true
+          · simp only [h3, Bool.not_true, Bool.false_eq_true, if_false]
+            have ih := runEvs_air_accounts { n with chans := n.chans.set c0 { ch with load := ch.load + s } } nested c
+            rw [ih, carriedOn_append, cloadOf_set n c0 c ch _ hc]
+            by_cases hcc : c = c0
+            · subst hcc
+              simp [carriedOn, Rec.carriedBy, cloadOf_eq n c ch hc]; omega
+            · have : ¬ c0 = c := fun e => hcc e.symm
+              simp [carriedOn, Rec.carriedBy, hcc, this]
+          · simp [h3, carriedOn, Rec.carriedBy]
+  | setEn k0 endA v =>
+    unfold runEv
+    cases hk : n.links[k0]? with
+    | none => simp [carriedOn]
+    | some l =>
+      simp only
+      by_cases hcur : ((if endA then l.enA else l.enB) == v) = true
+      · simp [hcur, carriedOn]
+      · simp [hcur, carriedOn, cloadOf]
+  | wsetEn c0 i v =>
+    unfold runEv
+    cases hc : n.chans[c0]? with
+    | none => simp [carriedOn]
+    | some ch =>
+      simp only
+      rw [cloadOf_set n c0 c ch _ hc]
+      by_cases hcc : c = c0
+      · subst hcc; simp [carriedOn, cloadOf_eq n c ch hc]
+      · simp [carriedOn, hcc]
+
+theorem runEvs_air_accounts (n : Net) (es : List Ev) (c : Nat) :
+    cloadOf (runEvs n es).1 c = cloadOf n c + carriedOn true c (runEvs n es).2 := by
+  cases es with
+  | nil => simp [runEvs, carriedOn]
+  | cons e es =>
+    unfold runEvs
+    have h1 := runEv_air_accounts n e c
+    have h2 := runEvs_air_accounts (runEv n e).1 es c
+    simp only
+    rw [h2, h1, carriedOn_append]
+    omega
+end
+
+theorem loadOf_tick (n : Net) (k : Nat) : loadOf (tick n) k = 0 := by
+  unfold loadOf tick
+  simp only [List.getElem?_map]
+  cases n.links[k]? <;> simp
+
+theorem cloadOf_tick (n : Net) (c : Nat) : cloadOf (tick n) c = 0 := by
+  unfold cloadOf tick
+  simp only [List.getElem?_map]
+  cases n.chans[c]? <;> simp
+
+theorem bwOf_tick (n : Net) (k : Nat) : bwOf (tick n) k = bwOf n k ∧ capOf (tick n) k = capOf n k := by
+  unfold bwOf capOf tick
+  simp only [List.getElem?_map]
+  constructor
+  · cases n.links[k]? <;> simp
+  · cases n.chans[k]? <;> simp
+
+/-- **The data carried by a wired link in a tick is its load, and is within its bandwidth** — for every tick in which no
+interface is disabled (see `C18_carried_counterexample` for why the hypothesis is there). A tick is `tick` followed by any
+forest of events. -/
+theorem C18_carried_le_bandwidth_partial (n : Net) (evs : List Ev) (k : Nat) (hnd : noDisables evs = true) :
+    carriedOn false k (runEvs (tick n) evs).2 = loadOf (runEvs (tick n) evs).1 k ∧
+    carriedOn false k (runEvs (tick n) evs).2 ≤ bwOf n k := by
+  have hacc := runEvs_accounts (tick n) evs hnd k
+  rw [loadOf_tick, Nat.zero_add] at hacc
+  have hinv := (runEvs_ok (tick n) evs (tick_inv n)).1
+  have hle := inv_loadOf hinv k
+  rw [(runEvs_bw (tick n) evs k).1, (bwOf_tick n k).1] at hle
+  exact ⟨hacc.symm, by omega⟩
+
+/-- **The data sent on a wireless channel in a tick is its load, and is within its capacity** (no side condition). -/
+theorem C18_air_carried_le_capacity (n : Net) (evs : List Ev) (c : Nat) :
+    carriedOn true c (runEvs (tick n) evs).2 = cloadOf (runEvs (tick n) evs).1 c ∧
+    carriedOn true c (runEvs (tick n) evs).2 ≤ capOf n c := by
+  have hacc := runEvs_air_accounts (tick n) evs c
+  rw [cloadOf_tick, Nat.zero_add] at hacc
+  have hinv := (runEvs_ok (tick n) evs (tick_inv n)).1
+  have hle := inv_cloadOf hinv c
+  rw [(runEvs_bw (tick n) evs c).2, (bwOf_tick n c).2] at hle
+  exact ⟨hacc.symm, by omega⟩
+
+/-- The property read literally for wired links: whatever happens in a tick, the data carried stays within the bandwidth. -/
+def C18_Full_carried : Prop :=
+  ∀ (n : Net) (evs : List Ev) (k : Nat), carriedOn false k (runEvs (tick n) evs).2 ≤ bwOf n k
+
+/-- It is false of the code: `Link.endpoint_down` clears `current_load` when an end interface is disabled, so an interface
+that goes down and comes back within one tick lets the link carry a second bandwidth's worth (8 + 8 over a link of 10). -/
+theorem C18_carried_counterexample : ¬ C18_Full_carried := by
+  intro h
+  have := h { links := [{ bw := 10, load := 0, enA := true, enB := true }], chans := [] }
+    [.send 0 true 8 true [], .setEn 0 false false, .setEn 0 false true, .send 0 true 8 true []] 0
+  revert this
+  decide
+
+example : noDisables [.send 0 true 6 true [.send 0 false 6 true [], .setEn 1 true true], .wsend 0 0 3 []] = true := by decide
+
+
 /-! ### What was wrong before the fixes (F-28), kept as checked statements -/
 
 /-- Before the fix the load was added after the nested sends: request 6 + reply 6 on a link of 10 ended at 12. -/
